@@ -225,7 +225,7 @@ func PartitionInputsAreRanges(p *core.Program, r *core.Report, rule string) {
 			for _, arg := range c.Args[1:] {
 				n++
 				okArg, how := false, ""
-				a := ast.Unparen(arg)
+				a := ast.Unparen(ResolveLocal(info, fd.Decl.Body, arg))
 				if call, ok := a.(*ast.CallExpr); ok {
 					if f2 := core.Callee(info, call); f2 != nil && core.RefName(f2) == "Split" && c.Ellipsis != token.NoPos {
 						okArg, how = true, "elements of a Split() result"
@@ -247,7 +247,7 @@ func PartitionInputsAreRanges(p *core.Program, r *core.Report, rule string) {
 						return true
 					})
 				}
-				r.Check(okArg, rule, fmt.Sprintf("%s: block list extended with single ranges (%s)", fd.Key(), core.ExprStr(arg)), p.Pos(c.Pos()), how,
+				r.Check(okArg, rule, fmt.Sprintf("%s: block list extended with single ranges (%s)", fd.Key(), core.Stable(info, a)), p.Pos(c.Pos()), how,
 					"a block that may consist of several disjoint ranges (a CIDR minus its excepts) is handed to the partition un-split: the partition then yields an IP peer that is not one contiguous range")
 			}
 			return true
